@@ -625,6 +625,8 @@ def check(run, F, tier):
                     r2.violation(key, "loop in %s (head bb%d) is neither iterator-driven nor has a strictly increasing bounded cursor: %s" % (path, head, kind[1]),
                                  site="%s:%s" % (f["file"], f["line"]))
 
+    check_representation(run, F)
+
     # ------------------------------------------------------------------ R3
     r3 = run.rule("C04-R3", "from_utf8_unchecked only on bytes validated by from_utf8 / coming from a constructed MqttString", floor=1)
     sites = []
@@ -689,6 +691,35 @@ def check(run, F, tier):
             r3.violation("ctor:" + panics.short_fn(pth), "%s constructs an MqttString from bytes without a from_utf8 check and without a str/String input" % pth)
     else:
         r3.ok("constructors", {"functions_constructing_MqttString": nctor})
+
+
+def check_representation(run, F):
+    """C04-R11: the representation invariants the ledger relies on for MqttString / MqttBinary (INV-LEN: at least the 2-byte
+    prefix is stored; INV-SSO: a Small buffer holds prefix + that many bytes) can only be established or broken inside the
+    type's own module - the structural half of the audit: who may construct, who may mutate."""
+    r11 = run.rule("C04-R11", "MqttString / MqttBinary values are constructed only by their own module and never handed out mutably", floor=4)
+    for adt in ("mqtt::packet::mqtt_string::MqttString", "mqtt::packet::mqtt_binary::MqttBinary"):
+        if adt not in F.adts:
+            r11.violation(adt.split("::")[-1], "%s not found (anchor lost)" % adt)
+            continue
+        mod = adt.rsplit("::", 1)[0] + "::"
+        short = adt.split("::")[-1]
+        builders, muts = [], []
+        for p, f in F.fns.items():
+            if any(s_["k"] == "assign" and s_["rv"]["k"] == "agg" and s_["rv"].get("adt") == adt for b in f["blocks"] for s_ in b["stmts"]):
+                builders.append(f)
+            if any(t.startswith("&mut") and adt in t for t in f["locals"][1:f.get("argc", 0) + 1]):
+                muts.append(f)
+            # a mutable borrow of the payload taken inside a method (`&mut self.0` / `match self { Small(b) => b }` on &mut)
+        outside = [f["path"] for f in builders if not (f["path"].lstrip("<").startswith(mod) or f.get("impl_self", "").split("<")[0] == adt)]
+        if outside:
+            r11.violation(short + "/constructed", "%s is constructed outside its module by %s: the length-prefix invariant is no longer local" % (short, outside[:3]))
+        else:
+            r11.ok(short + "/constructed", sorted(panics.short_fn(f["path"]) for f in builders))
+        if muts:
+            r11.violation(short + "/mutable", "%s is reachable mutably through %s: its stored bytes can change after validation" % (short, [f["path"] for f in muts][:3]))
+        else:
+            r11.ok(short + "/mutable", "no function takes &mut %s" % short)
 
 
 def natural_loops(f):
